@@ -436,3 +436,156 @@ func storeParent(v ssa.Value) string {
 	}
 	return "?"
 }
+
+// checkEveryOptionParsed: a parseRawOptions method derives every option it is responsible for on every
+// path that does not fail. For each derivation in the method - a store into a field of the receiver, or a
+// call of another parseRawOptions (delegation to the embedded options) - let G be the closest enclosing
+// `if` that is not an error test (the "was the option given" guard). A returning path whose error may be
+// nil must either perform the derivation or have evaluated G (and so skipped it because the option was not
+// given); a derivation without such a guard must be on every non-failing path. A `return` that leaves the
+// method from inside another option's block (`return err` with err == nil) skips every later option: the
+// flags behind them are silently ignored.
+func checkEveryOptionParsed(p *Prog, r *Report, rule string, want func(field string) bool) int {
+	n := 0
+	for _, fn := range p.SrcFuncs() {
+		if fn.Pkg != p.SPkg("command") || fn.Name() != "parseRawOptions" || fn.Signature.Recv() == nil || len(fn.Params) == 0 {
+			continue
+		}
+		recv := fn.Params[0]
+		rootedAtRecv := func(v ssa.Value) bool {
+			for i := 0; i < 8; i++ {
+				switch t := v.(type) {
+				case *ssa.FieldAddr:
+					v = t.X
+				case *ssa.Parameter:
+					return t == recv
+				case *ssa.UnOp:
+					// the receiver spilled into a cell because a closure captures it
+					a, isA := t.X.(*ssa.Alloc)
+					if !isA || t.Op != token.MUL {
+						return false
+					}
+					for _, ref := range *a.Referrers() {
+						if st, isS := ref.(*ssa.Store); isS && st.Addr == ssa.Value(a) {
+							return st.Val == ssa.Value(recv)
+						}
+					}
+					return false
+				default:
+					return false
+				}
+			}
+			return false
+		}
+		type deriv struct {
+			in    ssa.Instruction
+			label string
+		}
+		var ds []deriv
+		for _, b := range fn.Blocks {
+			for _, in := range b.Instrs {
+				switch t := in.(type) {
+				case *ssa.Store:
+					if fa, ok := t.Addr.(*ssa.FieldAddr); ok && rootedAtRecv(fa) {
+						f := fieldName(fa.X.Type(), fa.Field)
+						if want(f) {
+							ds = append(ds, deriv{t, f})
+						}
+					}
+				case *ssa.Call:
+					if g := StaticCallee(&t.Call); g != nil && g != fn && g.Name() == "parseRawOptions" && g.Signature.Recv() != nil {
+						ds = append(ds, deriv{t, "embedded " + recvNamed(g).Obj().Name()})
+					}
+				}
+			}
+		}
+		if len(ds) == 0 {
+			continue
+		}
+		fp := Paths(fn)
+		name := FuncName(fn)
+		pos := p.Pos(fn.Pos())
+		if fp.Truncated || len(fp.Headers) > 0 {
+			r.Undecided(rule, name+"/every-option-parsed", pos, "the paths of the option parser can be enumerated", "loop / too many paths")
+			continue
+		}
+		isErrTest := func(cond ssa.Value) bool {
+			bo, ok := cond.(*ssa.BinOp)
+			return ok && (isErrorType(bo.X.Type()) || isErrorType(bo.Y.Type()))
+		}
+		// closest non-error guard: walk the dominator chain
+		guardOf := func(in ssa.Instruction) *ssa.BasicBlock {
+			b := in.Block()
+			for d := b.Idom(); d != nil; d = d.Idom() {
+				iff, ok := d.Instrs[len(d.Instrs)-1].(*ssa.If)
+				if !ok || len(d.Succs) != 2 {
+					continue
+				}
+				d0 := d.Succs[0] == b || d.Succs[0].Dominates(b)
+				d1 := d.Succs[1] == b || d.Succs[1].Dominates(b)
+				if d0 == d1 {
+					continue // both or neither: b is not inside this if
+				}
+				if len(d.Succs[0].Preds) > 1 && d0 || len(d.Succs[1].Preds) > 1 && d1 {
+					continue // the successor is a join, not the body
+				}
+				if isErrTest(iff.Cond) {
+					continue
+				}
+				return d
+			}
+			return nil
+		}
+		seen := map[string]bool{}
+		for _, d := range ds {
+			key := name + "/parses-" + d.label
+			if seen[key] {
+				continue
+			}
+			ok, why := true, ""
+			var path []string
+			// all derivations with this label (several stores of the same field count as alternatives)
+			var same []deriv
+			for _, e := range ds {
+				if e.label == d.label {
+					same = append(same, e)
+				}
+			}
+			seen[key] = true
+			n++
+			for _, s := range fp.Segs {
+				if !s.Returns() || retClass(s) == retFail {
+					continue
+				}
+				done, evaluated, unguarded := false, false, false
+				for _, e := range same {
+					if s.Has(e.in) {
+						done = true
+					}
+					g := guardOf(e.in)
+					if g == nil {
+						unguarded = true
+						continue
+					}
+					for _, b := range s.Blocks {
+						if b == g {
+							evaluated = true
+						}
+					}
+				}
+				if done || (evaluated && !unguarded) {
+					continue
+				}
+				ok = false
+				if unguarded {
+					why = "a path that may return a nil error does not perform this unconditional step"
+				} else {
+					why = "a path that may return a nil error leaves the method before the `was the option given` test of this option is evaluated: the flag is ignored on that option combination"
+				}
+				path = s.Describe(p)
+			}
+			r.Check(ok, rule, key, pos, "every non-failing path derives this option or has evaluated its guard", why, path...)
+		}
+	}
+	return n
+}
